@@ -16,6 +16,15 @@ LEVEL_TEXT = ("Machine-checked validator: Lean theorem certEquiv_sound (all real
               "while the quantifier over evaluation points is universal. update_tree is additionally modelled in full at list level (detection loops "
               "over the regenerated pow_num/exp_ord tables and all output splices), compared with the real function on every call the real driver makes, "
               "and proved to remove a pow-set label on every rewrite (updateTree_decreases, driver_phase1_bounded). "
+              "Candidate selection of update_tree (Props/C11c): the five parallel lists special_idx/diff1_idx/diff2_idx/num1/num2 are modelled statement by statement "
+              "(UT.detectPar) and PROVED to be the columns of the record list the model splices from (detectPar_eq_specials, parallel_lists_aligned: row k of every list "
+              "belongs to the same site; candidate_from_its_site: its run lengths and numbers are the ones detected AT special_idx[k], sites strictly increasing), the "
+              "parallel-list spelling of the whole function equals the record model (updateTreePar_eq_updateTree), the result at try_idx k is a function of candidate k alone "
+              "(updateTree_candidate_local, selectOut_local, selectOut_filter) and the decrease / valid-shape theorems hold at every try index (updateTree_all_try_indices). "
+              "Tied to the code by a structure-directed phase (harness/c11_sites.py): every ordered pair of site kinds (log_abs+run, run+exp, log_abs+run+exp, pow_abs with runs "
+              "on both sides) x run lengths 1..3 under every subset of the optional binary operators, classes of folded numbers rotating through all pairs, plus PRNG triples; "
+              "the REAL update_tree is called at EVERY try index with its five candidate lists captured at return (sys.monitoring) and compared with the model's lists, with an "
+              "independent re-derivation of the sites, and its result with the model; every returned tree is certified / evaluated, and the real driver is run on the same trees. "
               "The fixed-point driver find_additional_trees is modelled as written over abstract rewriters and an abstract cross-check oracle "
               "(Props/C11b: driver_outputs_from_rewriters, driver_phase_order, driver_no_duplicates, driver_terminates within |U|+1 passes per loop when the reachable "
               "label lists lie in a finite list U, phase1_terminates_updateTree with U computed from powCount) and compared with the REAL driver running over "
@@ -25,13 +34,17 @@ LEVEL_TEXT = ("Machine-checked validator: Lean theorem certEquiv_sound (all real
               "grow a tree by 2(m-2) labels); termination of phase 2 on real trees is observed through the per-tree time bound.")
 TECHNIQUE = ("Lean 4 proof of a certificate checker (normalisation by proved-sound steps over Mathlib's reals) + regenerated pow_num/exp_ord tables "
              "+ Lean models of update_tree, update_sums and of the fixed-point driver with invariants/termination proofs + exhaustive/sampled runs of the "
-             "real rewriter through the checker and an independent numeric oracle + the real driver over PRNG-scripted rewriters")
+             "real rewriter through the checker and an independent numeric oracle + the real driver over PRNG-scripted rewriters "
+             "+ proved alignment of update_tree's parallel candidate lists, tied by structure-directed multi-site trees driving the real update_tree at every try index "
+             "(candidate lists captured with sys.monitoring)")
 RULE = ("one evaluation = one (original tree, basis) run of the real find_additional_trees plus one per emitted extra tree, or one scripted run of the real driver; "
         "non-trivial = the run emitted at least one extra tree; distinct by (labels, basis) / by script. quick: every tree with n<=5 over the six shipped bases "
         "(n<=6 for the four shipped bases with at most 12000 trees at n=6) "
         "and over the fixed + PRNG user-style bases (n<=4 for user bases with more than 1500 trees at n=5), plus 2500 PRNG-sampled trees at n=6,7, 400 driver scripts, "
-        "2500 synthetic update_sums trees x 3 try indices; "
-        "thorough: every tree n<=6 (shipped) / n<=5 or 6 (user) plus 30000 PRNG-sampled trees at each of n=7,8,9, 4000 driver scripts, 30000 synthetic update_sums trees")
+        "2500 synthetic update_sums trees x 3 try indices, and the site-directed trees (one per ordered pair of 9 site kinds x lengths and per subset of {-,/,pow}, "
+        "+ pow_abs patterns + 120 triples, about 900 trees of 5-20 labels): one evaluation per direct update_tree call (every try index up to one past the last candidate) "
+        "and per driver run; "
+        "thorough: 5 site-directed trees per pair and pattern + 2500 triples; every tree n<=6 (shipped) / n<=5 or 6 (user) plus 30000 PRNG-sampled trees at each of n=7,8,9, 4000 driver scripts, 30000 synthetic update_sums trees")
 EXPLANATION = LEVEL_TEXT
 TRUSTED = ["Mathlib v4.33 reals: Real.exp/log/rpow/sqrt",
            "ESR operator semantics as written in Proofs/Rewrite.lean (inv u=1/u, sqrt_abs u=sqrt|u|, log_abs u=log|u|, pow(u,v)=|u|^v; from esr/fitting/sympy_symbols.py)",
@@ -39,6 +52,9 @@ TRUSTED = ["Mathlib v4.33 reals: Real.exp/log/rpow/sqrt",
            "harness/oracle_rewrite.py (independent parser/evaluator, float + 60/120-digit mpmath)",
            "hand model UT.updateTree of update_tree in ESRVerif/Model/Rewrite.lean (subtree ends by slot counting instead of parent pointers; tied by "
            "correspondence on every real call)",
+           "hand model UT.detectPar / UT.updateTreePar of the five parallel candidate lists (generator.py l.601-694), proved equal to the record model; tied by the captured "
+           "lists of every site-directed call (op rwcand) and by rwutp on the same calls",
+           "harness/c11_sites.py (site generator + independent re-derivation of the candidate table)",
            "hand model US.updateSums of update_sums in ESRVerif/Model/RewriteSums.lean (same pointer reading, guarded by an evaluated precondition; tied by "
            "correspondence on every real call + synthetic calls; answers `unported` are counted in the evidence)",
            "hand model Drv.findAdditional of find_additional_trees in ESRVerif/Model/RewriteDriver.lean (three parallel lists as one list of entries; a tree = its shape; "
@@ -48,6 +64,10 @@ ASSUMPTIONS = ["equality is claimed at points where both trees are defined (Lean
                "trees beyond the exhaustive bound are PRNG-sampled; a numerically equal but uncertified pair beyond the quick bound is recorded as "
                "uncertified_sampled in the evidence and does not fail the run; within the quick bound it is reported as an incompleteness of the validator",
                "bases with the label pow_abs are outside the property's quantifier (binary operators from + * - / pow): explored, observations recorded, never a violation",
+               "direct update_tree calls at try indices the driver does not reach on that tree are judged like driver outputs (the property names the rewriting step); "
+               "a nested single-candidate result over a basis without '-' (known finding F13) is not judged directly: the driver run on the same tree reports it under F13",
+               "the captured candidate lists are compared only when the function still has the five list locals special_idx, diff1_idx, diff2_idx, num1, num2 "
+               "(otherwise counted as candidate_tables_unreadable; results are compared regardless)",
                "termination: driver_terminates needs the reachable label lists to lie in a finite list U (hypothesis hU). For phase 1 over the update_tree model U is computed "
                "(phase1_terminates_updateTree; its hypothesis Consistent is evaluated on every real update_tree call). For phase 2 hU is NOT proved "
                "(updateSums_sizes_bounded_partial is a per-step bound); on real trees termination of the whole driver = the real driver returns within the per-tree time bound",
